@@ -403,6 +403,18 @@ class Ctx:
         """The *property* fails on the implementation for this concrete input."""
         self.failures.append({"case": case, "what": what, "kind": kind or what, "detail": detail})
 
+    def absorb(self, other: "Ctx"):
+        """merge the bookkeeping of a further pass over the same property"""
+        self.evaluations += other.evaluations
+        self.nontrivial_hashes |= other.nontrivial_hashes
+        self.disagreements.extend(other.disagreements)
+        self.failures.extend(other.failures)
+        for k, v in other.dist.items():
+            self.dist[k] = self.dist.get(k, 0) + v
+        self.notes.extend(other.notes)
+        if hasattr(self.driver, "lines") and hasattr(other.driver, "lines"):
+            self.driver.lines += other.driver.lines
+
     def model(self, reqs: List[dict]) -> List[dict]:
         if not self.model_available:
             return [{"error": "model unavailable"} for _ in reqs]
@@ -534,6 +546,31 @@ def _main(prop: str, tier: str, seed: int, replay: Optional[str], t0: float) -> 
     except Exception as e:  # the harness itself tripped on the implementation
         crash = traceback.format_exc()
         ctx.notes.append("harness exception: " + crash[-1500:])
+
+    # ---- source-directed deepening: when a function the property is anchored in differs from the
+    # tree on which everything was last established, the same check is repeated on a fresh, four
+    # times larger stream (correspondence and oracle both on).  A changed unit is not an alarm.
+    changed = []
+    if not replay:
+        try:
+            import anchors
+
+            changed = anchors.changed_units(prop, REPO)
+        except Exception:
+            changed = []
+        if changed:
+            ctx.notes.append("anchored source units that differ from the baseline tree: " + ", ".join(changed[:12]))
+            if crash is None and not ctx.failures and not ctx.disagreements and st.driver_ok and os.environ.get("VERIF_DEEPEN", "1") == "1":
+                ctx3 = Ctx(prop, tier, seed + 7919, scale=4 if tier == "quick" else 2)
+                ctx3.model_available = True
+                try:
+                    run_module(mod, ctx3)
+                except InfraError:
+                    raise
+                except Exception:
+                    crash = traceback.format_exc()
+                    ctx.notes.append("harness exception (deepening pass): " + crash[-1500:])
+                ctx.absorb(ctx3)
 
     tie_broken = (not st.ok) or bool(ctx.disagreements) or (crash is not None) or (not st.driver_ok)
     searched_extra = 0
